@@ -51,6 +51,11 @@ func c02Check(in c02Input) string {
 	if (errA == nil) != (errB == nil) {
 		return fmt.Sprintf("the proto API and the JSON string API disagree: %v vs %v", errA, errB)
 	}
+	// the statement quantifies over models, not over first calls: converting the same in-memory model again must give
+	// the same answer (a printer that rearranges its argument answers differently the second time)
+	if dslA2, errA2 := transformer.TransformJSONProtoToDSL(pm); (errA2 == nil) != (errA == nil) || dslA2 != dslA {
+		return fmt.Sprintf("a second conversion of the same in-memory model gives a different answer: first (%v)\n%s\nsecond (%v)\n%s", errA, dslA, errA2, dslA2)
+	}
 	if len(bad) > 0 {
 		if errA == nil {
 			return fmt.Sprintf("conversion succeeded although %d relation(s) are not DSL-expressible; produced:\n%s", len(bad), dslA)
